@@ -261,6 +261,36 @@ class Machine:
                         flat.append(a[pos])
                     comps.append(self.ndarray(flat, tuple(arrs_shape)))
                 return comps
+            if base in ('unravel_index', 'ravel_multi_index', 'prod') and args:
+                def ints(v):
+                    out = []
+                    for x_ in (v if isinstance(v, (tuple, list, Vec)) else [v]):
+                        c_ = I.concrete(x_) if isinstance(x_, X.Node) else x_
+                        if c_ is None or Fraction(c_).denominator != 1:
+                            raise AnalysisError(f'{base} of a non-integer / symbolic value')
+                        out.append(int(c_))
+                    return out
+                if base == 'prod':
+                    r_ = 1
+                    for x_ in ints(args[0]): r_ *= x_
+                    return r_
+                shape = ints(args[1] if len(args) > 1 else kwargs.get('shape', kwargs.get('dims')))
+                total = 1
+                for n_ in shape: total *= n_
+                if base == 'unravel_index':
+                    k_ = ints(args[0])[0]
+                    if not 0 <= k_ < total:          # numpy raises for an index outside the array
+                        raise RaiseSignal(ast.Raise(exc=ast.Name(id='ValueError', ctx=ast.Load()), cause=None), f'ValueError(index {k_} is out of bounds for array with size {total})')
+                    out = []
+                    for n_ in reversed(shape):
+                        out.append(k_ % n_); k_ //= n_
+                    return tuple(reversed(out))
+                idx = ints(args[0])
+                if len(idx) != len(shape) or any(not 0 <= i_ < n_ for i_, n_ in zip(idx, shape)):
+                    raise RaiseSignal(ast.Raise(exc=ast.Name(id='ValueError', ctx=ast.Load()), cause=None), 'ValueError(invalid entry in coordinates array)')
+                k_ = 0
+                for i_, n_ in zip(idx, shape): k_ = k_ * n_ + i_
+                return k_
             if base == 'size' and args and isinstance(args[0], Obj) and 'flat' in args[0].attrs:
                 return len(args[0].attrs['flat'])
             if base == 'size' and args and isinstance(args[0], (list, Vec, tuple)):
